@@ -505,13 +505,13 @@ fn main() {
         Mint(2, 0, 2, vec![2]), Mint(2, 1, 2, vec![]), Grant(2, 1, 1, vec![1]), Burn(2, 0, vec![2]), Burn(2, 0, vec![2]), Mint(3, 1, 2, vec![2]), Burn(3, 1, vec![3]), BurnFrom(2, 3, 1, vec![2]), Grant(3, 1, 1, vec![1]), BurnFrom(3, 3, 1, vec![]), BurnFrom(3, 3, 1, vec![3]),
         Mint(2, 0, 2, vec![2]), Approve(4, 4, 0, vec![4]), Approve(2, 4, 0, vec![]), Approve(2, 4, 0, vec![2]), BurnFrom(4, 2, 0, vec![4]), Grant(4, 1, 1, vec![1]), BurnFrom(4, 2, 0, vec![2]), BurnFrom(4, 2, 0, vec![4]),
         Mint(4, 1, 2, vec![2]), Approve(4, 3, 1, vec![4]), Revoke(4, 1, 1, vec![1]), BurnFrom(3, 4, 1, vec![3]), Revoke(3, 1, 1, vec![1]), Mint(4, 0, 2, vec![2]), Approve(4, 3, 0, vec![4]), BurnFrom(3, 4, 0, vec![3]), Grant(4, 1, 1, vec![1]), BurnFrom(3, 4, 0, vec![3]), BurnFrom(4, 4, 0, vec![4])], "corpus/admin-handover-and-macros");
-    let ntr = (if thorough { 1200 } else { 100 }) * out.cfg.scale as usize;
+    let ntr = (if thorough { 1200 } else { 200 }) * out.cfg.scale as usize;
     for i in 0..ntr {
         let len = if thorough { 50 + rng.below(60) as usize } else { 35 + rng.below(20) as usize };
         let mut r = rng.fork(i as u64);
         random_ac(&mut out, &mut r, len, &format!("random-ac/{}", i));
     }
-    let nown = (if thorough { 300 } else { 30 }) * out.cfg.scale as usize;
+    let nown = (if thorough { 300 } else { 40 }) * out.cfg.scale as usize;
     for i in 0..nown {
         let mut r = rng.fork(1_000_000 + i as u64);
         random_own(&mut out, &mut r, 30, &format!("random-own/{}", i));
